@@ -59,8 +59,10 @@ _COMMON = [
     "batch-affine:bucket_collisions_with_repeat_or_opposite", "fold",
     "gomaxprocs:1", "gomaxprocs:2", "gomaxprocs:3", "gomaxprocs:8", "gomaxprocs:16", "recv:aff", "recv:jac",
     "meta:split", "meta:permutation", "meta:config_independent", "n:0", "n:1", "n:2", "n:3",
-    "watchdog:deadlock_proven", "watchdog:alive_not_deadlock",
-]
+    "watchdog:deadlock_proven", "watchdog:alive_not_deadlock", "watchdog:busy_nontermination_proven",
+    # NbTasks < 0 ("not set") through every entry point
+    "nbtasks:negative", "nbtasks:zero",
+] + ["nbtasks:negative/%s/%s%s" % (g, e, r) for g in ("G1", "G2") for e in ("", "fold_") for r in ("aff", "jac")]
 
 PROP = dict(
     rule=("one evaluation = one MultiExp/Fold call (receiver G1Affine/G1Jac/G2Affine/G2Jac) on a generated (points, scalars, NbTasks, "
@@ -80,8 +82,11 @@ PROP = dict(
         "class labels (window size c, processor, overweight split, recursion) come from a harness re-implementation of the documented "
         "cost formulas and digit recoding; for n >= 20000 the window size of unsplit calls is confirmed black-box from the bytes allocated "
         "by the call (label c:N/confirmed_by_allocation); labels never decide a verdict",
-        "termination: a wall-clock deadline (max(60 s, 100 x median)) without a goroutine-dump proof of deadlock is reported as inconclusive "
-        "(exit 2), never as a violation",
+        "termination: a call is a violation only when (a) a goroutine dump proves a deadlock (every gnark-crypto goroutine parked, two "
+        "identical snapshots) or (b) it has consumed more process CPU time than max(120 CPU-s, 1000 x median CPU of same-shape calls) "
+        "+ 2 CPU-ms per input point and is still running inside gnark-crypto at two probes >= 10 s apart (busy non-termination; CPU time "
+        "does not depend on machine load); a wall-clock deadline (max(60 s, 100 x median) + 3 ms per point, extended up to 10x while the "
+        "call is alive and below its CPU allowance) without either proof is reported as inconclusive (exit 2), never as a violation",
         "white-box overlay (unexported partitionScalars/_innerMsmG1): G1 only, against a big.Int affine reference written inside the "
         "overlay file; G2 processors are generated from the same template and are covered black-box",
         "stark-curve has no MultiExp; bw6-633 implements c in {4,5,6,8,12,16}, bw6-761 {4,5,8,10,16}, secp256k1 4..15",
